@@ -79,11 +79,11 @@ func vhManipulations() {
 		m.TbsPubKeyAlg = "1.4." + string([]byte{oid[2]})
 	}
 	if sub&16 != 0 {
-		sigval = vBytes("sigval", 2)
+		sigval = vBytes("sigval", vParam("VLEN", 2))
 		m.SigValue = binaryPrefix + vB64(sigval)
 	}
 	if sub&32 != 0 {
-		pubbits = vBytes("pubbits", 2)
+		pubbits = vBytes("pubbits", vParam("VLEN", 2))
 		m.TbsPubKey = binaryPrefix + vB64(pubbits)
 	}
 	cfg := base
